@@ -45,6 +45,25 @@ template<> class QMap<QString, QMap<QString, QXmppPresence>> : public VpSlotMap<
 #undef private
 #undef protected
 
+// ------------------------------------------------------------------------------------------------ QXmppPresence (cut)
+// The CONTENTS of a presence are outside C12 (DESIGN: X).  The roster manager only copies presences and reads from()
+// (QXmppStanza, real) and type().  QXmppPresence.cpp is therefore not linked; the members that are reached are defined
+// here over a lean private part holding just the type.  Layout of the class itself is the real header's.
+#ifdef C12_LEAN_PRESENCE
+class QXmppPresencePrivate : public QSharedData { public: QXmppPresence::Type type = QXmppPresence::Available; };
+QXmppPresence::QXmppPresence(QXmppPresence::Type type) : d(new QXmppPresencePrivate) { d->type = type; }
+QXmppPresence::QXmppPresence(const QXmppPresence &other) = default;
+QXmppPresence::QXmppPresence(QXmppPresence &&) = default;
+QXmppPresence::~QXmppPresence() = default;
+QXmppPresence &QXmppPresence::operator=(const QXmppPresence &other) = default;
+QXmppPresence &QXmppPresence::operator=(QXmppPresence &&) = default;
+bool QXmppPresence::isXmppStanza() const { return true; }
+QXmppPresence::Type QXmppPresence::type() const { return d->type; }
+void QXmppPresence::setType(QXmppPresence::Type type) { d->type = type; }
+void QXmppPresence::parse(const QDomElement &) { vp_c12_model_limit(false); }          // never reached
+void QXmppPresence::toXml(QXmlStreamWriter *) const { vp_c12_model_limit(false); }     // never reached
+#endif
+
 // ------------------------------------------------------------------------------------------------ environment
 static QString g_ownBare, g_ownFull;
 static int g_smState;            // QXmppClient::StreamManagementState
@@ -143,7 +162,7 @@ static void symRoster(QXmppRosterManagerPrivate *d, RefRoster &ref)
         k[i] = vpSymString(3); QString nm = vpSymString(1);
         unsigned t = vp_u8(); vp_assume(t <= 4 || t == 8);   // any SubscriptionType value
         QXmppRosterIq::Item it; it.setBareJid(k[i]); it.setName(nm); it.setSubscriptionType(QXmppRosterIq::Item::SubscriptionType(t));
-        d->entries.val[i] = it; d->entries.key[i] = k[i];
+        *d->entries.val[i] = it; d->entries.key[i] = k[i];
         ref.key[i] = k[i]; ref.name[i] = nm; ref.type[i] = int(t);
     }
     vp_assume(!(k[0] == k[1]));
@@ -161,7 +180,7 @@ static void checkRoster(const QXmppRosterManagerPrivate *d, const RefRoster &ref
         if (d->entries.used[i] && d->entries.key[i] == probe) {
             vp_assert(!inView, "C12 a contact appears once in the roster view");
             inView = true;
-            const QXmppRosterIq::Item &it = d->entries.val[i];
+            const QXmppRosterIq::Item &it = *d->entries.val[i];
             vp_assert(inRef, "C12 roster view contains no contact beyond last full roster + authorised pushes");
             if (inRef) {
                 vp_assert(it.bareJid() == probe, "C12 contact is stored under its own bare JID");
@@ -249,7 +268,7 @@ static void symOwnJid()
     internAttrs();
     g_ownBare = vpSymStringNonEmpty(3);
     vp_assume(noSlash(g_ownBare));     // a bare JID has no resource part
-    g_ownFull = g_ownBare + L("/r");
+    g_ownFull = g_ownBare; g_ownFull.append(QChar(u'/')); g_ownFull.append(QChar(u'r'));   // no QStringBuilder: its memcpy with a symbolic size is a measured killer
 }
 
 // ------------------------------------------------------------------------------------------------ (1) unauthorised push
@@ -332,19 +351,21 @@ struct RefPresence { QString bare[2]; bool bareUsed[2]; QString res[2][2]; bool 
 static void symPresences(QXmppRosterManagerPrivate *d, RefPresence &rp, int nres)
 {
     for (int i = 0; i < 2; i++) {
-        rp.bare[i] = vpSymString(2);
-        d->presences.key[i] = rp.bare[i];
-        ResMap &inner = d->presences.val[i];
+        rp.bare[i] = vpSymStringNonEmpty(2);            // invariant: a presence is only ever stored under a non-empty bare JID
+        const bool uo = vp_bool();
+        d->presences.key[i] = rp.bare[i]; d->presences.used[i] = uo; rp.bareUsed[i] = uo;
+        ResMap &inner = *d->presences.val[i];
         for (int j = 0; j < 2; j++) {
             rp.resUsed[i][j] = false;
             if (j >= nres) continue;
             rp.res[i][j] = vpSymString(2);
-            QXmppPresence p; p.setFrom(rp.bare[i] + L("/") + rp.res[i][j]);
-            inner.val[j] = p; inner.key[j] = rp.res[i][j];
-            bool u = vp_bool(); inner.used[j] = u; rp.resUsed[i][j] = u;
+            QString f = rp.bare[i]; f.append(QChar(u'/')); f.append(rp.res[i][j]);
+            QXmppPresence p; p.setFrom(f);
+            *inner.val[j] = p; inner.key[j] = rp.res[i][j];
+            const bool u = uo && vp_bool();             // invariant of the slot map: an unused outer slot holds an empty inner map
+            inner.used[j] = u; rp.resUsed[i][j] = u;
         }
         if (nres > 1) vp_assume(!(rp.res[i][0] == rp.res[i][1]));
-        bool u = vp_bool(); d->presences.used[i] = u; rp.bareUsed[i] = u;
     }
     vp_assume(!(rp.bare[0] == rp.bare[1]));
 }
@@ -360,7 +381,7 @@ static bool viewHasPresence(const QXmppRosterManagerPrivate *d, const QString &b
 {
     for (int i = 0; i < PRES_CAP; i++) {
         if (!d->presences.used[i] || !(d->presences.key[i] == b)) continue;
-        const ResMap &inner = d->presences.val[i];
+        const ResMap &inner = *d->presences.val[i];
         for (int j = 0; j < PRES_CAP; j++) { if (inner.used[j] && inner.key[j] == r) return true; }
     }
     return false;
